@@ -402,77 +402,111 @@ var ruleH4 = &Rule{
 				}
 			}
 		}
-		for _, w := range c.plannerFieldWrites() {
-			if !w.memo {
+		// memo sites on SSA: a store to a cell (a planner field, or the target of a pointer kept in one) that cannot be reached from
+		// the branch on which that same cell was found non-nil; the sub-planner calls that run only on the empty-memo side.
+		for _, sf := range liveModuleFuncs(c, transpilerScopes...) {
+			if sf.Signature.Recv() == nil && sf.Parent() == nil {
 				continue
 			}
-			// the memo write's enclosing function: find Process calls on planner-typed fields inside the memo guard
-			sf := c.ssaFuncOf(w.fi)
-			if sf == nil {
-				continue
-			}
-			// invoke sites `x.Process(ctx)` in this function
-			for _, b := range sf.Blocks {
-				for _, ins := range b.Instrs {
-					call, ok := ins.(*ssa.Call)
-					if !ok || !call.Call.IsInvoke() || call.Call.Method.Name() != "Process" {
+			for _, sb := range sf.Blocks {
+				for _, sins := range sb.Instrs {
+					st, ok := sins.(*ssa.Store)
+					if !ok || !isCellAddr(st.Addr) {
 						continue
 					}
-					// only calls that lie inside the memo guard: approximate by source position within the guarding if
-					if !c.insideMemoGuard(w, call.Pos()) {
-						continue
-					}
-					// callees (hybrid graph) and everything they reach
-					// Follow static calls everywhere, but interface calls only from functions that were themselves reached through
-					// interface dispatch from the memo site (the memoised planner and the planners it wraps): a helper planner that a
-					// memoised stage constructs and calls directly must not drag in everything its own optional sub-planner could be.
-					seen := map[*ssa.Function]bool{}
-					seenInv := map[*ssa.Function]bool{}
-					var offenders []string
-					var walk func(fn *ssa.Function, allowInvoke bool)
-					walk = func(fn *ssa.Function, allowInvoke bool) {
-						if allowInvoke {
-							if seenInv[fn] {
-								return
-							}
-							seenInv[fn] = true
-						} else if seen[fn] || seenInv[fn] {
-							return
+					// the guarding branch
+					for _, gb := range sf.Blocks {
+						if len(gb.Instrs) == 0 {
+							continue
 						}
-						if !seen[fn] && readsTo[fn] {
-							offenders = append(offenders, ssaName(fn))
+						iff, ok := gb.Instrs[len(gb.Instrs)-1].(*ssa.If)
+						if !ok {
+							continue
 						}
-						seen[fn] = true
-						for _, e := range g.vtaOut[fn] {
-							if e.Fallback {
+						cmp, ok := iff.Cond.(*ssa.BinOp)
+						if !ok || (cmp.Op != token.NEQ && cmp.Op != token.EQL) {
+							continue
+						}
+						isNilK := func(v ssa.Value) bool { k, ok := v.(*ssa.Const); return ok && k.Value == nil }
+						var tested ssa.Value
+						if isNilK(cmp.Y) {
+							tested = cmp.X
+						} else if isNilK(cmp.X) {
+							tested = cmp.Y
+						}
+						ld, ok := tested.(*ssa.UnOp)
+						if !ok || ld.Op != token.MUL || !sameAddr(ld.X, st.Addr, 0) {
+							continue
+						}
+						nonNil, isNil := gb.Succs[0], gb.Succs[1]
+						if cmp.Op == token.EQL {
+							nonNil, isNil = isNil, nonNil
+						}
+						fromNonNil := reachableBlocks(nonNil)
+						if fromNonNil[sb] {
+							continue // the store also happens when the cell is filled: not a memo
+						}
+						fromNil := reachableBlocks(isNil)
+						// sub-planner calls on the empty side only
+						for _, b := range sf.Blocks {
+							if !fromNil[b] || fromNonNil[b] {
 								continue
 							}
-							inModule := e.Callee.Pkg != nil && strings.HasPrefix(e.Callee.Pkg.Pkg.Path(), modPath) || e.Callee.Parent() != nil
-							if !inModule {
-								continue
-							}
-							isInvoke := e.Site != nil && e.Site.Common().IsInvoke()
-							if isInvoke {
-								if allowInvoke && e.Site.Common().Method.Name() == "Process" {
-									walk(e.Callee, true)
+							for _, ins := range b.Instrs {
+								call, ok := ins.(*ssa.Call)
+								if !ok || !call.Call.IsInvoke() || call.Call.Method.Name() != "Process" {
+									continue
 								}
-								continue
+								seen := map[*ssa.Function]bool{}
+								seenInv := map[*ssa.Function]bool{}
+								var offenders []string
+								var walk func(fn *ssa.Function, allowInvoke bool)
+								walk = func(fn *ssa.Function, allowInvoke bool) {
+									if allowInvoke {
+										if seenInv[fn] {
+											return
+										}
+										seenInv[fn] = true
+									} else if seen[fn] || seenInv[fn] {
+										return
+									}
+									if !seen[fn] && readsTo[fn] {
+										offenders = append(offenders, ssaName(fn))
+									}
+									seen[fn] = true
+									for _, e := range g.vtaOut[fn] {
+										if e.Fallback {
+											continue
+										}
+										inModule := e.Callee.Pkg != nil && strings.HasPrefix(e.Callee.Pkg.Pkg.Path(), modPath) || e.Callee.Parent() != nil
+										if !inModule {
+											continue
+										}
+										isInvoke := e.Site != nil && e.Site.Common().IsInvoke()
+										if isInvoke {
+											if allowInvoke && e.Site.Common().Method.Name() == "Process" {
+												walk(e.Callee, true)
+											}
+											continue
+										}
+										walk(e.Callee, false)
+									}
+								}
+								for _, e := range g.vtaOut[sf] {
+									if e.Site == ssa.CallInstruction(call) {
+										walk(e.Callee, true)
+									}
+								}
+								key := fmt.Sprintf("%s memoises the statement of %s", ssaName(sf), c.fieldOfCall(call))
+								sort.Strings(offenders)
+								if len(offenders) == 0 {
+									obls = append(obls, Obl{Key: key, Pos: c.pos(call.Pos()), Status: OK, Msg: fmt.Sprintf("%d functions reachable, none reads the window end", len(seen))})
+								} else {
+									obls = append(obls, Obl{Key: key, Pos: c.pos(call.Pos()), Status: Violation, Path: offenders,
+										Msg: "the memoised statement is built by code that reads PlannerContext.To: its upper bound is frozen at the first execution, so a live tail stops seeing series/rows newer than that"})
+								}
 							}
-							walk(e.Callee, false)
 						}
-					}
-					for _, e := range g.vtaOut[sf] {
-						if e.Site == ssa.CallInstruction(call) {
-							walk(e.Callee, true)
-						}
-					}
-					key := fmt.Sprintf("%s memoises the statement of %s", w.fi.Name(), c.fieldOfCall(call))
-					sort.Strings(offenders)
-					if len(offenders) == 0 {
-						obls = append(obls, Obl{Key: key, Pos: c.pos(call.Pos()), Status: OK, Msg: fmt.Sprintf("%d functions reachable, none reads the window end", len(seen))})
-					} else {
-						obls = append(obls, Obl{Key: key, Pos: c.pos(call.Pos()), Status: Violation, Path: offenders,
-							Msg: "the memoised statement is built by code that reads PlannerContext.To: its upper bound is frozen at the first execution, so a live tail stops seeing series/rows newer than that"})
 					}
 				}
 			}
@@ -488,6 +522,55 @@ var ruleH4 = &Rule{
 		}
 		return out
 	},
+}
+
+// isCellAddr: the address of a struct field, or of the target of a pointer that is itself loaded from a struct field.
+func isCellAddr(a ssa.Value) bool {
+	switch x := a.(type) {
+	case *ssa.FieldAddr:
+		return true
+	case *ssa.UnOp:
+		if x.Op == token.MUL {
+			_, ok := x.X.(*ssa.FieldAddr)
+			return ok
+		}
+	}
+	return false
+}
+
+// sameAddr: two address expressions denote the same cell (same field of the same object, same pointer loaded from the same field).
+func sameAddr(a, b ssa.Value, d int) bool {
+	if a == b {
+		return true
+	}
+	if d > 4 {
+		return false
+	}
+	switch x := a.(type) {
+	case *ssa.FieldAddr:
+		y, ok := b.(*ssa.FieldAddr)
+		return ok && x.Field == y.Field && (canon(x.X) == canon(y.X) || sameAddr(x.X, y.X, d+1))
+	case *ssa.UnOp:
+		y, ok := b.(*ssa.UnOp)
+		return ok && x.Op == token.MUL && y.Op == token.MUL && sameAddr(x.X, y.X, d+1)
+	}
+	return canon(a) == canon(b)
+}
+
+func reachableBlocks(from *ssa.BasicBlock) map[*ssa.BasicBlock]bool {
+	out := map[*ssa.BasicBlock]bool{}
+	var walk func(b *ssa.BasicBlock)
+	walk = func(b *ssa.BasicBlock) {
+		if out[b] {
+			return
+		}
+		out[b] = true
+		for _, s := range b.Succs {
+			walk(s)
+		}
+	}
+	walk(from)
+	return out
 }
 
 func (c *Ctx) ssaFuncOf(fi *FuncInfo) *ssa.Function {
